@@ -1,1 +1,3 @@
 import AdeptModel.GradAlloc
+import AdeptModel.Tape
+import AdeptModel.StackProto
